@@ -62,7 +62,7 @@ Definition k2_ok (c : c04case) : bool := sres_eqb (c_ref_defaulted c) (s_eval (c
    5 = run-time fault inside constant folding (C17)
    6 = constant shift of an untyped rune / float constant reported with the wrong untyped kind (C03-b)
    7 = an integer-only operator (% & | ^ &^ << >> unary ^) accepted on float operands
-   9 = constant operands of different classes (string with number, ...): fault or garbage, not a clean rejection
+   9 = an `unknown` constant value (shift of a non-integral constant) propagates into a larger expression
    0 = unclassified *)
 Fixpoint int_op_on_float (e : expr) : bool :=
   match e with
